@@ -9,6 +9,9 @@ from tools import manifest_meta as M
 BOUNDED_NOTE = (" BOUNDED stand-in (not proof): bounded/universe.py evaluates the property statement end to end on 120 (quick) / 1200 (thorough) "
                 "seeded small projects plus per-property sub-universes (bound stated in bounded/universe.py and in the evidence); a failure there is a "
                 "VIOLATION with the project text as replay; open known findings are re-confirmed by their witness inputs (witnesses/run.py).")
+CLI_NOTE = (" BOUNDED stand-in (not proof): bounded/cli_scan.py runs the real 'plan report' entry point as an OS process on an enumerated set "
+            "of inputs x channels x formats and failure inputs with a private TMPDIR and working directory (exit status, stdout/stderr separation, "
+            "report_id == SHA-256(input bytes), file == stdin bytes, nothing left behind, a concurrent batch equals solitary runs).")
 props = [json.loads(l) for l in open(os.path.join(HERE, "properties.jsonl"))]
 checks = []
 na = []
@@ -25,8 +28,9 @@ for p in props:
             "replay_cmd_template": "python3-vt check.py " + pid + " --tier quick   # rewrites {path} from the current tree; the replay file carries the failing input and the native re-run",
             "engine": "pyvc",
             "level_claimed": {"category": meta["level"], "text": t["level_text"], "design_ref": t.get("design_ref", "DESIGN.md section 4")},
-            "level_note": t["level_note"] + (BOUNDED_NOTE if any(b["script"] == "universe.py" for b in meta.get("bounded", [])) else ""),
-            "technique": t["technique"] + ("; bounded stand-in: the property statement evaluated on the real parser+scheduler over an enumerated universe of small projects (labelled bounded)" if any(b["script"] == "universe.py" for b in meta.get("bounded", [])) else ""),
+            "level_note": t["level_note"] + (BOUNDED_NOTE if any(b["script"] == "universe.py" for b in meta.get("bounded", [])) else "")
+            + (CLI_NOTE if any(b["script"] == "cli_scan.py" for b in meta.get("bounded", [])) else ""),
+            "technique": t["technique"] + ("; bounded stand-in: the property statement evaluated on the real parser+scheduler over an enumerated universe of small projects (labelled bounded)" if any(b["script"] in ("universe.py", "cli_scan.py") for b in meta.get("bounded", [])) else ""),
         })
     else:
         na.append({"property_id": pid, "reason": M.NOT_APPLICABLE.get(pid, "no check built yet for this property (see DESIGN.md, status table)")})
